@@ -13,7 +13,15 @@ def World.bindD (W : World) (v : Nat) (u : Term) : World := { W with σD := (v, 
 
 theorem World.bindD_ok {W : World} (hW : W.Good) {v : Nat} (u : Term) (hv : ¬ W.TD v) (hlt : v < W.nD) :
     (W.bindD v u).Good ∧ ∀ t t', W.Eq t t' → (W.bindD v u).Eq t t' := by
-  refine ⟨⟨hW.fn, hW.inj, hW.scS, fun x hx => ?_⟩, ?_⟩
+  have hunb : ∀ a b, (W.bindD v u).ρ a b →
+      (∀ p ∈ (W.bindD v u).σS, p.1 ≠ a) ∧ (∀ p ∈ (W.bindD v u).σD, p.1 ≠ b) := by
+    intro a b r
+    refine ⟨(hW.unb a b r).1, fun p hp => ?_⟩
+    simp only [World.bindD, List.mem_cons] at hp
+    rcases hp with rfl | hp
+    · exact fun e => hv (.inr ⟨a, by have e' : v = b := e; rw [e']; exact r⟩)
+    · exact (hW.unb a b r).2 p hp
+  refine ⟨⟨hW.fn, hW.inj, hW.scS, fun x hx => ?_, hunb⟩, ?_⟩
   · rcases hx with ⟨p, hp, e⟩ | ⟨a, r⟩
     · simp only [World.bindD, List.mem_cons] at hp
       rcases hp with rfl | hp
@@ -35,7 +43,22 @@ def World.swapD (W : World) (c v : Nat) : World :=
 theorem World.swapD_ok {W : World} (hW : W.Good) {a c v : Nat} (hc : W.ρ a c) (hv : ¬ W.TD v) (hlt : v < W.nD) :
     (W.swapD c v).Good ∧ ∀ t t', W.Eq t t' → (W.swapD c v).Eq t t' := by
   have hvρ : ∀ x, ¬ W.ρ x v := fun x r => hv (.inr ⟨x, r⟩)
-  refine ⟨⟨?_, ?_, fun x hx => ?_, fun y hy => ?_⟩, ?_⟩
+  have hunb : ∀ x y, (W.swapD c v).ρ x y →
+      (∀ p ∈ (W.swapD c v).σS, p.1 ≠ x) ∧ (∀ p ∈ (W.swapD c v).σD, p.1 ≠ y) := by
+    intro x y r
+    rcases r with r | r
+    · refine ⟨(hW.unb x y r.1).1, fun p hp => ?_⟩
+      simp only [World.swapD, List.mem_cons] at hp
+      rcases hp with rfl | hp
+      · exact fun e => r.2 e.symm
+      · exact (hW.unb x y r.1).2 p hp
+    · refine ⟨(hW.unb x c r.2).1, fun p hp => ?_⟩
+      simp only [World.swapD, List.mem_cons] at hp
+      rw [r.1]
+      rcases hp with rfl | hp
+      · exact fun e => hvρ a (by have e' : c = v := e; rw [← e']; exact hc)
+      · exact W.unbD hv p hp
+  refine ⟨⟨?_, ?_, fun x hx => ?_, fun y hy => ?_, hunb⟩, ?_⟩
   · intro x b b' h h'
     rcases h with h | h <;> rcases h' with h' | h'
     · exact hW.fn _ _ _ h.1 h'.1
